@@ -32,7 +32,9 @@ class Pickle(Filetype):
     def build_tree_handling_errors(self, path: str, options: Optional[BuildOptions] = None) -> Union[str, TreeNode]:
         try:
             return self.build_tree(path=path, options=options)
-        except PickleDecodeError as e:
+        except (PickleDecodeError, NotImplementedError, ValueError) as e:
+            # fickling raises NotImplementedError for opcodes it does not support (e.g., FLOAT of protocol 0) and
+            # ValueError when its symbolic stack does not hold what an opcode expects
             return f'Error deserializing {os.path.basename(path)}: {e!s}'
 
     def get_default_formatter(self) -> PyDiffFormatter:
